@@ -144,8 +144,11 @@ func (cc *ClusterContext) schedule() bool {
 		metrics.GetSchedulerMetrics().ObserveSchedulingLatency(schedulingStart)
 		if result != nil {
 			if result.ResultType == objects.Replaced {
-				// communicate the removal to the RM
-				cc.notifyRMAllocationReleased(psc.RmID, psc.Name, []*objects.Allocation{result.Request.GetRelease()}, si.TerminationType_PLACEHOLDER_REPLACED, "replacing allocationKey: "+result.Request.GetAllocationKey())
+				// communicate the removal to the RM, unless the replacement has been reversed in the meantime: the
+				// placeholder or its node can be removed by the RM while the result travels up to this point
+				if ph := result.Request.GetRelease(); ph != nil {
+					cc.notifyRMAllocationReleased(psc.RmID, psc.Name, []*objects.Allocation{ph}, si.TerminationType_PLACEHOLDER_REPLACED, "replacing allocationKey: "+result.Request.GetAllocationKey())
+				}
 			} else {
 				cc.notifyRMNewAllocation(psc.RmID, result.Request)
 			}
